@@ -1373,7 +1373,7 @@ func (c *control) dirAS(colon, at bool, params []any, p *slip.Printer) {
 func (c *control) dirT(colon, at bool, params []any) {
 	// A colon modifier indicates relative to a section which we can't
 	// determined so for now ignore.
-	colnum := 0
+	colnum := 1 // the documented default for colnum and colinc is 1
 	colinc := 1
 	colnum = c.getIntParam(0, params, colnum, true)
 	colinc = c.getIntParam(1, params, colinc, true)
